@@ -438,6 +438,8 @@ func resetGlobals() {
 	typeTagList = nil
 	typeCache = map[string]types.Type{}
 	heapValType = map[string]types.Type{}
+	heapKeySort = map[string]string{}
+	heapKeyType = map[string]types.Type{}
 }
 
 func writeReplayNote(verif, prop, name, text string, r *groupResult) string {
